@@ -6,7 +6,7 @@
 (* (formats of the observations: Summary.tla).  The census is computed here *)
 (* from the recorded final statuses -- Python never counts.  One state per  *)
 (* row; every violated clause is printed as                                 *)
-(*   <<"VERDICT", id, clause or clause/family, impl, fmt, kind>>            *)
+(*   <<"VERDICT", id, clause, impl, fmt, kind>>                             *)
 (* and every difference between what the transcription (S) predicts for     *)
 (* the recorded model and what the code printed as                          *)
 (*   <<"VERDICT", id, "DIVERGE", impl, fmt, "-">>  (informational: full      *)
@@ -23,14 +23,14 @@ ObsOf(r) == [reps |-> r.c14.reps, col |-> r.c14.col, live_ok |-> r.end.live_ok]
 Diverging(r, m) ==
    LET v1 == V1Run(m)  col == ColRun(m)
        Pred(o) == IF o.impl = "V2" THEN SpecV2(col, o.fmt) ELSE [SpecV1(v1, o.fmt) EXCEPT !.impl = o.impl]
-       reps == Judged(ObsOf(r))
+       reps == Observed(ObsOf(r))              \* V2 included: compared, not judged
    IN {<<reps[j].impl, reps[j].fmt>> : j \in {jj \in DOMAIN reps : reps[jj] # Pred(reps[jj])}}
       \cup (IF r.c14.col.crashed # "" \/ r.c14.col.failing # col.failed \/ r.c14.col.errored # col.errored
             THEN {<<"collector", "-">>} ELSE {})
 
 Next == /\ i <= Len(Rows)
         /\ LET r == Rows[i]  m == ModelOf(r) IN
-           /\ \A v \in Clauses(m, ObsOf(r)) : PrintT(<<"VERDICT", r.id, ClauseId(v), v[2], v[3], v[4]>>)
+           /\ \A v \in Clauses(m, ObsOf(r)) : PrintT(<<"VERDICT", r.id, v[1], v[2], v[3], v[4]>>)
            /\ \A d \in Diverging(r, m) : PrintT(<<"VERDICT", r.id, "DIVERGE", d[1], d[2], "-">>)
         /\ i' = i + 1
 Spec == Init /\ [][Next]_i
